@@ -300,11 +300,13 @@ def in_python_domain(ctx, d, v, contract=None):
 
 # ------------------------------------------------------------------------------ body refines contract (generic)
 def verify_refines(reg, fn, contract, make, unit, compare_on_raise=True, inline=None, inline_phantom=False, setup=None,
-                   models=None, replayer_factory=None):
+                   models=None, replayer_factory=None, history_replayer=None):
     """Run the contract (as the callers see it) and the real body on identical generic inputs
     and require identical outcomes: same return value / same exception class, same bytes
     appended to every sink, same remainder of every source."""
     res = Result(unit)
+    if history_replayer is not None:
+        res.history_replayer = history_replayer
 
     def run(ctx, res=res):
         a_body, a_spec, pairs, info = make(ctx)
